@@ -114,13 +114,14 @@ type Link struct {
 }
 
 type Input struct {
-	Rel     string  `json:"rel"`
-	Single  bool    `json:"single"`  // db.Model(&owner) instead of db.Model(&owners)
-	Owners  []int64 `json:"owners"`  // handle
-	Outside []int64 `json:"outside"` // other owner rows
-	Targets []int64 `json:"targets"` // existing rows of the target table
-	Links   []Link  `json:"links"`   // existing links of OUTSIDE owners (has-kinds: target's fk; belongs: owner's fk; m2m: join row)
-	Ops     []OpIn  `json:"ops"`
+	Rel        string  `json:"rel"`
+	Single     bool    `json:"single"`                // db.Model(&owner) instead of db.Model(&owners)
+	SameHandle bool    `json:"same_handle,omitempty"` // ONE *Association (db.Model(..).Association(rel)) is kept and used for every operation, Count and Find of the history
+	Owners     []int64 `json:"owners"`                // handle
+	Outside    []int64 `json:"outside"`               // other owner rows
+	Targets    []int64 `json:"targets"`               // existing rows of the target table
+	Links      []Link  `json:"links"`                 // existing links of OUTSIDE owners (has-kinds: target's fk; belongs: owner's fk; m2m: join row)
+	Ops        []OpIn  `json:"ops"`
 }
 
 // ---------------------------------------------------------------- observation
@@ -354,6 +355,18 @@ func (e *Env) run(in Input) Result {
 		}
 		return &owners
 	}
+	// fresh-handle mode: every call goes through its own db.Model(..).Association(rel);
+	// same-handle mode: one handle is created once and reused, as users who keep the handle do
+	var kept *gorm.Association
+	handle := func() *gorm.Association {
+		if !in.SameHandle {
+			return db.Model(model()).Association(r.Name)
+		}
+		if kept == nil {
+			kept = db.Model(model()).Association(r.Name)
+		}
+		return kept
+	}
 	snap := func(err error) Snap {
 		var s Snap
 		all := []int64{}
@@ -365,9 +378,9 @@ func (e *Env) run(in Input) Result {
 		}
 		s.Tgts = e.ints("SELECT id FROM " + r.Table + " ORDER BY id")
 		s.Other = e.othersOf(r, in.Owners)
-		s.Count = db.Model(model()).Association(r.Name).Count()
+		s.Count = handle().Count()
 		out := reflect.New(reflect.SliceOf(r.Elem))
-		ferr := db.Model(model()).Association(r.Name).Find(out.Interface())
+		ferr := handle().Find(out.Interface())
 		s.Find = []int64{}
 		for i := 0; i < out.Elem().Len(); i++ {
 			s.Find = append(s.Find, out.Elem().Index(i).FieldByName("ID").Int())
@@ -386,7 +399,7 @@ func (e *Env) run(in Input) Result {
 	for _, op0 := range in.Ops {
 		op := op0
 		op.Del = append([]int64{}, op0.Del...)
-		assoc := db.Model(model()).Association(r.Name)
+		assoc := handle()
 		if op.Unscoped {
 			assoc = assoc.Unscoped()
 		}
@@ -668,7 +681,7 @@ func genInput(r *lib.Rng, maxOps int, edge bool) Input {
 
 func shapeOf(in Input) string {
 	var sb strings.Builder
-	fmt.Fprintf(&sb, "%s|single=%v|o%d|out%d|t%d|l%d|", in.Rel, in.Single, len(in.Owners), len(in.Outside), len(in.Targets), len(in.Links))
+	fmt.Fprintf(&sb, "%s|same=%v|single=%v|o%d|out%d|t%d|l%d|", in.Rel, in.SameHandle, in.Single, len(in.Owners), len(in.Outside), len(in.Targets), len(in.Links))
 	for _, o := range in.Ops {
 		u := ""
 		if o.Unscoped {
@@ -688,6 +701,16 @@ func shapeOf(in Input) string {
 // trigger condition of one of the two known defects names the case (two more, belongs-to
 // Unscoped Delete / Clear, were fixed in /repo: d23ce2a, 75c7076; their inputs are ordinary now).
 func sig(in Input) string {
+	// one *Association reused: the harness reads (Count, Find) before the first and after every
+	// operation, so every such history has a write after a read through the same handle
+	if in.SameHandle && len(in.Ops) > 0 {
+		return "association-handle-reuse"
+	}
+	return sigOther(in)
+}
+
+// sigOther: the known shapes that do not depend on how the handle is obtained.
+func sigOther(in Input) string {
 	rel := rels[in.Rel]
 	if rel.Kind != "KBelongs" && rel.Kind != "KM2M" {
 		return ""
@@ -867,15 +890,17 @@ func main() {
 	}
 	for i := 0; i < budget; i++ {
 		edge := r.Chance(15, 100)
-		known := r.Chance(5, 100) // a small stream that is NOT filtered: known shapes stay visible
+		known := r.Chance(5, 100)        // a small stream that is NOT filtered: known shapes stay visible
+		same := !known && r.Chance(1, 5) // one *Association kept for the whole history
 		var in Input
 		for tries := 0; ; tries++ {
 			in = genInput(r, maxOps, edge)
-			if known || sig(in) == "" || tries > 200 {
+			if known || sigOther(in) == "" || tries > 200 {
 				break
 			}
-			out.Count("regenerated_known_shape", sig(in))
+			out.Count("regenerated_known_shape", sigOther(in))
 		}
+		in.SameHandle = same
 		kind := "main"
 		if edge {
 			kind = "edge"
@@ -883,9 +908,13 @@ func main() {
 		if known {
 			kind = "known-shapes"
 		}
+		if same {
+			kind = "same-handle"
+		}
+		out.Count("handle_lifetime", map[bool]string{true: "one handle reused", false: "fresh handle per call"}[same])
 		out.Count("known_shape", sig(in))
 		add(kind, in)
 	}
-	out.Extra["rule"] = "cases = histories of 1..8 (thorough 12) operations Append/Replace/Delete/Clear, each scoped or Unscoped, on one relation of kind {has one, has many, polymorphic has many and polymorphic has one (next to rows of ANOTHER owner type that carry the same owner ids, and that may be moved into the relation or named in its Delete), belongs to, many2many with struct elements, many2many with pointer elements}, through db.Model(&owner) or db.Model(&owners) with 1..3 owners that start without links, next to 0..2 outside owners with existing links; targets are new records, existing unlinked rows, rows linked to the same owner, rows linked to outside owners, and duplicates (equal copies or THE SAME object repeated inside a slice argument and followed by further targets; variadic or one slice argument); Count(), Find(), raw foreign keys / join rows of the handle AND of every other owner / owner type, the target table and the in-memory fields are read after every operation; domain: for has one / has many / polymorphic a target is never given to two different owners of one handle; distinct = distinct (relation, handle, table sizes, operation sequence with sizes) shapes; non-trivial = the stored links change at least twice"
+	out.Extra["rule"] = "cases = histories of 1..8 (thorough 12) operations Append/Replace/Delete/Clear, each scoped or Unscoped, on one relation of kind {has one, has many, polymorphic has many and polymorphic has one (next to rows of ANOTHER owner type that carry the same owner ids, and that may be moved into the relation or named in its Delete), belongs to, many2many with struct elements, many2many with pointer elements}, through db.Model(&owner) or db.Model(&owners) (a fresh *Association per call, or - one history in five - ONE handle kept and reused for every operation, Count and Find) with 1..3 owners that start without links, next to 0..2 outside owners with existing links; targets are new records, existing unlinked rows, rows linked to the same owner, rows linked to outside owners, and duplicates (equal copies or THE SAME object repeated inside a slice argument and followed by further targets; variadic or one slice argument); Count(), Find(), raw foreign keys / join rows of the handle AND of every other owner / owner type, the target table and the in-memory fields are read after every operation; domain: for has one / has many / polymorphic a target is never given to two different owners of one handle; distinct = distinct (relation, handle, table sizes, operation sequence with sizes) shapes; non-trivial = the stored links change at least twice"
 	lib.Must(out.Flush())
 }
